@@ -5,6 +5,7 @@ Shared by `driver` (full) and `specdriver` (still builds when the translated cod
 import Py65.Driver.Spec
 import Py65.Driver.Num
 import Py65.Driver.Obs
+import Py65.Driver.Mon
 
 namespace Py65.Driver
 open Py65
@@ -31,6 +32,7 @@ def handleBase (toks : List String) : Option String :=
   | "pyint" :: [b, h] => some (runNum ["pyint", b, h])      -- int(str, base) model (C15/C19)
   | "pyint" :: rest => some (pyint rest)
   | "obs" :: rest => some (runObs rest)
+  | "mon" :: rest => some (runMon rest)
   | "num" :: rest => some (runNum ("num" :: rest))
   | "rng" :: rest => some (runNum ("rng" :: rest))
   | "lbl" :: rest => some (runNum ("lbl" :: rest))
